@@ -238,31 +238,34 @@ def rawDistribution (f : Formula) (o : Opts) : Except Err (Dist Rat × Rat × Ra
     | .error e => .error e
     | .ok total => .ok (total, particle, delta, post)
 
+/-- everything after the element loop: normalisation to the largest peak, threshold, sorting, shifts, scaling -/
+def finishDistribution (o : Opts) (total : Dist Rat) (particle delta formulaMass : Rat) : Except Err (Dist Rat) :=
+  match maxAb total with
+  | none => .error .valueError
+  | some mx =>
+    if mx = 0 then .error .zeroDiv else
+    let thr := o.minAbundanceThreshold.getD 0
+    let normalized := ((sortByKey total).filter (fun p => decide (thr ≤ p.2 / mx))).map (fun p => (p.1, p.2 / mx))
+    let shifted :=
+      if delta ≠ 0 then
+        if !o.useNeutronCount then normalized.map (fun p => (p.1 + delta, p.2))
+        else if o.outputMassesForNeutronOffset then normalized.map (fun p => (p.1 + delta, p.2))
+        else normalized
+      else normalized
+    let massed :=
+      if o.outputMassesForNeutronOffset && o.useNeutronCount then
+        shifted.map (fun p => (formulaMass + p.1 * o.neutronMass, p.2))
+      else shifted
+    let withParticles :=
+      if particle ≠ 0 && (!o.useNeutronCount || o.outputMassesForNeutronOffset) then
+        massed.map (fun p => (p.1 + particle, p.2))
+      else massed
+    scaleAbundances withParticles o.distributionAbundance o.isAbundanceSum o.precision
+
 def isotopicDistribution (f : Formula) (o : Opts) : Except Err (Dist Rat) :=
   match rawDistribution f o with
   | .error e => .error e
-  | .ok (total, particle, delta, formulaMass) =>
-    match maxAb total with
-    | none => .error .valueError
-    | some mx =>
-      if mx = 0 then .error .zeroDiv else
-      let thr := o.minAbundanceThreshold.getD 0
-      let normalized := ((sortByKey total).filter (fun p => decide (thr ≤ p.2 / mx))).map (fun p => (p.1, p.2 / mx))
-      let shifted :=
-        if delta ≠ 0 then
-          if !o.useNeutronCount then normalized.map (fun p => (p.1 + delta, p.2))
-          else if o.outputMassesForNeutronOffset then normalized.map (fun p => (p.1 + delta, p.2))
-          else normalized
-        else normalized
-      let massed :=
-        if o.outputMassesForNeutronOffset && o.useNeutronCount then
-          shifted.map (fun p => (formulaMass + p.1 * o.neutronMass, p.2))
-        else shifted
-      let withParticles :=
-        if particle ≠ 0 && (!o.useNeutronCount || o.outputMassesForNeutronOffset) then
-          massed.map (fun p => (p.1 + particle, p.2))
-        else massed
-      scaleAbundances withParticles o.distributionAbundance o.isAbundanceSum o.precision
+  | .ok (total, particle, delta, formulaMass) => finishDistribution o total particle delta formulaMass
 
 /-! ## `merge_isotopic_distributions` -/
 
